@@ -23,6 +23,8 @@ package main
 //
 // Answer: ok <delivered hex> eof=<0|1> drainerr=<0|1>.  All waits are bounded; a wait that expires
 // just lets the history go on (the final stream is then compared as it is).
+//
+// Observation point (b), the batches of batchers.TailFilesToChan: op `tailb`, see c15tail.go.
 
 import (
 	"bytes"
